@@ -5,6 +5,7 @@ Part 1 (this section): the index-kind type system on the kernel IR into which th
 translated on every run (`tools/translate/kernels.py` → `SkNet/Generated/KernelIR.lean`).
 -/
 import SkNet.Lemmas.Kinds
+import SkNet.Lemmas.KindsAssigned
 import SkNet.Lemmas.TerminateSeen
 import SkNet.Lemmas.TerminateLouvain
 import SkNet.Lemmas.ModularityFit
@@ -53,6 +54,7 @@ def rowScatter : Kernel where
   body := .forRange 0 (.const 0) (.dim 1)
             (.forRange 1 (.load 0 0 (.var 0)) (.load 1 0 (.add (.var 0) (.const 1)))
               (.seq (.touch 2 2 (.var 1)) (.touch 3 3 (.load 4 1 (.var 1)))))
+  params := []
   siteNames := ["indptr[i]", "indptr[i+1]", "data[j]", "out[indices[j]]", "indices[j]"]
   varNames := ["i", "j"]
   arrNames := ["indptr", "indices", "data", "out"]
@@ -83,6 +85,33 @@ example : rowScatterBad.wellKinded = false ∧ rowScatterBad.ill = [2] := by dec
 example : (match exec 50 rowScatterBad.body (oneEdge.state (fun _ _ => 0)) with
     | .err (.oob 2) => true | _ => false) = true := by decide
 
+/-- **no_uninit.**  The complement of `kinds_sound` on the error classes of the interpreter: if the definite-assignment
+    check accepts the kernel from its entry variables (`K.assigned`: integer parameters and object fields are the only
+    variables read before an assignment), then on inputs that give a value to each of them no execution — any oracle,
+    any fuel — reads an unassigned variable.  With `kinds_sound`, an accepted kernel can therefore only stop in a
+    normal state, in `.done` (a `return`; or a `pick` from an empty container, which ends the over-approximated path),
+    in `.fuel` (the budget of the interpreter; termination is the subject of section 2), or out of bounds at a
+    waived site. -/
+theorem no_uninit (K : Kernel) (h : K.assigned = true) (inp : Inputs) (hp : inp.provides K.params = true)
+    (orc : Nat → Nat → Int) (fuel x : Nat) : exec fuel K.body (inp.state orc) ≠ .err (.uninit x) :=
+  assigned_sound K.params K.body h inp hp orc fuel x
+
+/-- the two error classes together -/
+theorem kinds_and_assignment_sound (K : Kernel) (ill : List Nat) (h : K.checkWith ill = true) (ha : K.assigned = true)
+    (inp : Inputs) (hin : inp.satisfies K.env = true) (hp : inp.provides K.params = true) (orc : Nat → Nat → Int)
+    (fuel : Nat) (e : Err) (hr : exec fuel K.body (inp.state orc) = .err e) : ∃ site, e = .oob site ∧ site ∈ ill := by
+  cases e with
+  | oob site => exact ⟨site, rfl, kinds_sound K ill h inp hin orc fuel site hr⟩
+  | uninit x => exact absurd hr (no_uninit K ha inp hp orc fuel x)
+
+example : rowScatter.assigned = true ∧ oneEdge.provides rowScatter.params = true := by decide
+/-- a kernel that reads a local before assigning it is refused, and the refusal is meaningful -/
+example :
+    let K : Kernel := { rowScatter with body := .touch 0 3 (.var 0) }
+    K.assigned = false ∧
+    (match exec 5 K.body (oneEdge.state (fun _ _ => 0)) with | .err (.uninit 0) => true | _ => false) = true := by
+  decide
+
 /-! ## 2. Termination: measures for the loops of the models -/
 
 /-- **propagation_terminates.**  `Propagation.fit` (model `SkNet.Vote.fit` of the repaired code: the loop stops
@@ -90,6 +119,8 @@ example : (match exec 50 rowScatterBad.body (oneEdge.state (fun _ _ => 0)) with
     directed or not —, for every seed vector, every node order and every `n_iter`, the default (unbounded)
     included: `fitBound` = (number of nodes)^(number of updated nodes) + 1 evaluations of the loop test suffice,
     because a sweep never invents a label and a configuration is never met twice before the loop stops. -/
+-- (`hw` is inherited from C13's lemma `voteUpdate_subset`; the pigeonhole argument itself only needs that a sweep is a
+-- function that never invents a label, so the restriction to non-negative weights is an artefact of the proof)
 theorem propagation_terminates (c : Csr Rat) (hw : ∀ p, 0 ≤ c.data.getD p 0) (values : List Int)
     (a : Vote.PropArgs) (hsig : Vote.SigmaOK a.sigma (Vote.instantiateVars values).2.length) (fuel : Nat)
     (hf : Terminate.fitBound values a.sigma ≤ fuel) : Vote.fit c values a fuel ≠ none :=
@@ -136,9 +167,12 @@ theorem untilFixed_diverges (step : List Int → List Int) (a b : List Int) (hab
 example : ∀ fuel, untilFixed (fun l => Vote.voteUpdate dicycle3 l [0, 1, 2]) fuel [1, 2, 1] = none :=
   fun fuel => (untilFixed_diverges _ [1, 2, 1] [2, 1, 2] (by decide) (by decide +kernel) (by decide +kernel) fuel).1
 
-/-- **optimize_core_terminates.**  The `while not stop` loop of the Louvain kernel (model
-    `SkNet.Modularity.optimizeCore`, exact arithmetic) terminates for every tolerance `tol ≥ 0` — the default
-    `1e-3` and the boundary value `0` included: a pass that does not stop the loop raises the objective `Q` by
+/-- **optimize_core_terminates** (over ℚ).  The `while not stop` loop of the Louvain kernel, in the model
+    `SkNet.Modularity.optimizeCore` instantiated at the rationals, terminates for every tolerance `tol ≥ 0`.
+    This is a statement about exact arithmetic **only**: the compiled kernel accumulates in `float`, where an exact
+    tie can come out as a tiny positive gain, and with `tol_optimization = 0` it did cycle for ever (defect F22,
+    13-node weighted path); the float32 kernel terminates because of its pass cap (`n + 1` passes, /repo 244a467f),
+    which the worker stream exercises, not because of this theorem.  Over ℚ: a pass that does not stop the loop raises the objective `Q` by
     `increase_pass > tol ≥ 0`, so no label vector is met twice and `K^n + 1` passes suffice (`n` nodes, `K` cluster
     slots).  This is the statement left open as `SkNet.C06.optimize_core_terminates_full`. -/
 theorem optimize_core_terminates (g : Modularity.Graph Rat) (hg : Modularity.GraphOK g) (res tol : Rat)
@@ -311,17 +345,26 @@ example : Terminate.Chained 3 [[0, 0, 1], [0, 1], [0, 1], [0, 0]] ∧
 
 /-! ## 6. `vote_update`: in bounds, including the scratch vectors and the `votes` buffer (the sites of defect F2) -/
 
-/-- **inbounds_vote.**  Checked model of the repaired `vote_update` (`SkNet/Model/KernelsVote.lean`).  On every
-    well-formed square CSR matrix (`Csr.WF`, what scipy guarantees), with one label per node (any integers; negative
-    = unlabelled) and an update index of nodes, no access leaves its array: `data` is read at the edge position,
+/-- **inbounds_vote.**  Checked model of the repaired `vote_update` (`SkNet/Model/KernelsVote.lean`), in unbounded
+    integers.  The kernel computes the size of `votes`, `labels[i] + 1`, in C `int`: the model agrees with it only for
+    labels `< 2^31 - 1` (hypothesis `hint`; for `INT32_MAX` the sum wraps and the kernel writes past the buffer —
+    defect F23; `Propagation.fit` now renumbers the seeds `0..k-1` before the sweeps, so the kernel only sees labels
+    `< n`).  On every well-formed square CSR matrix (`Csr.WF`, what scipy guarantees), with one label per node
+    (negative = unlabelled) and an update index of nodes, no access leaves its array: `data` is read at the edge position,
     the scratch vectors `labels_neigh`/`votes_neigh` are read below their common size, `votes` — `max(labels) + 1`
     cells — is only indexed by labels that occur in `labels`, and a sweep never introduces a new label.  The
     result is the result of the unchecked model of C13.  (For the pinned kernel the corresponding statement is
     false: `SkNet.C13.pinned_vote_out_of_bounds`.) -/
 theorem inbounds_vote (c : Csr Rat) (hwf : c.WF = true) (hsq : c.nRow = c.nCol) (labels : List Int)
-    (hl : labels.length = c.nRow) (index : List Nat) (hidx : ∀ i ∈ index, i < c.nRow) :
-    KVote.voteUpdate? c labels index = .ok (Vote.voteUpdate c labels index) :=
-  KVote.voteUpdate?_ok (KVote.csrOK_of_wf c hwf hsq) labels hl index hidx
+    (hl : labels.length = c.nRow) (hint : ∀ l ∈ labels, l < 2 ^ 31 - 1) (index : List Nat)
+    (hidx : ∀ i ∈ index, i < c.nRow) :
+    KVote.voteUpdate? c labels index = .ok (Vote.voteUpdate c labels index) ∧
+    (Vote.nLabels labels : Int) < 2 ^ 31 :=
+  ⟨KVote.voteUpdate?_ok (KVote.csrOK_of_wf c hwf hsq) labels hl index hidx, KVote.nLabels_lt_int32 labels hint⟩
+
+/-- the C `int` computation `labels[i] + 1` at `INT32_MAX`: the wrapped sum is negative, no cell is allocated,
+    and the first vote for that label is out of the buffer (witness of F23 at the level of the arithmetic) -/
+example : KVote.wrap32 ((2 ^ 31 - 1 : Int) + 1) = -(2 ^ 31) ∧ ¬ ((2 ^ 31 - 1 : Int) < 2 ^ 31 - 1) := by decide
 
 /-- non-vacuity: the one-edge graph on 6 nodes (nnz = 2 < n, the input on which the pinned kernel read
     `data[jj]` out of bounds), seeds 7 and 9 on the two end points (labels ≥ n = 6, on which the pinned
@@ -335,8 +378,9 @@ example :
 
 /-! ## 7. the refinement of Leiden -/
 
-/-- **refine_core_terminates.**  The `while increase` loop of `optimize_refine_core` (model
-    `SkNet.Modularity.refineCore`, exact arithmetic) terminates for **every** sequence of values of `rand()`:
+/-- **refine_core_terminates** (over ℚ; the float32 kernel cycled — defect F21 — and is now bounded by its pass cap).
+    The `while increase` loop of `optimize_refine_core` (model `SkNet.Modularity.refineCore`, exact arithmetic)
+    terminates for **every** sequence of values of `rand()`:
     a node only moves to a refined cluster whose `delta_local` is strictly positive; the refined partition refines
     the clusters, so the neighbour loop restricted to the node's own cluster sees the whole link towards each
     candidate and `delta_local` is exactly the change of `Q` of the refined partition; a pass that sets `increase`
